@@ -32,7 +32,7 @@ def generate(ctx):
         trainer = rng.choice(TRAINERS)
         delay = rng.choice([None, 2]) if trainer not in tr.NEEDS_DELAY else 2
         target = ["fresh", "prerun", "clone"][(i // 3) % 3]
-        yield {"kind": kind, "dt": rng.choice([1.0, 0.5]), "B": rng.randint(1, 2), "seed": rng.randrange(1 << 30),
+        yield {"kind": kind, "dt": rng.choice([1.0, 0.5, 1.3, 0.25]), "B": rng.randint(1, 2), "seed": rng.randrange(1 << 30),
                "T": rng.randint(8, 14 if th else 10), "neuron": rng.choice(fac.NEURONS), "neuron2": rng.choice(fac.NEURONS),
                "syn": rng.choice(fac.SYNAPSES), "delay": delay, "bias": rng.random() < 0.4, "p": rng.choice([0.4, 0.7]),
                "conn": rng.choice(fac.CONNECTIONS), "transform": None, "conns": [rng.choice(["dense", "direct", "lateral"]) for _ in range(2)],
@@ -40,7 +40,7 @@ def generate(ctx):
                "trainable_feedback": True, "transforms": False, "capture": False,
                "trainer": trainer, "signs": rng.randrange(4), "trace_mode": rng.choice(["cumulative", "nearest"]),
                "delayed": bool(delay) and rng.random() < 0.5, "inplace": rng.random() < 0.5,
-               "reducer": rng.choice(REDUCERS), "reducer_duration": rng.choice([0.0, 3.0]), "classifier": target == "clone" or rng.random() < 0.5,
+               "reducer": rng.choice(REDUCERS), "reducer_duration": rng.choice([0.0, 3.0, 2.5, 1.0]), "classifier": target == "clone" or rng.random() < 0.5,
                "target": target, "reducer_clear_at": rng.choice([None, 2, 4])}
 
 
